@@ -4,6 +4,7 @@
 set -u
 patch="$1"; shift
 cd /verif
+save=$(mktemp -d /tmp/evid.XXXXXX); cp -a /verif/evidence/. $save/ 2>/dev/null
 git -C /repo apply "$patch" || { echo "patch does not apply"; exit 2; }
 for p in "$@"; do
   out=$(./check "$p" --tier quick 2>&1); rc=$?
@@ -18,4 +19,4 @@ PY
 done
 git -C /repo checkout -- .
 rm -rf /verif/evidence/replays
-git -C /verif checkout -- evidence 2>/dev/null
+cp -a $save/. /verif/evidence/ && rm -rf $save
